@@ -10,13 +10,13 @@ BASELINE_OFF = ("cd /repo && GOFLAGS=-mod=mod GOPROXY=off go build ./... && "
 CHECKS = {
  "C01": ("model_checking",
          "explicit-state BFS over canonical model trees; every (state, op) transition executed on a fresh real memfs by history replay and compared step-by-step with a tree reference model; retained-observation probes",
-         "All 361 (quick) / 841+ (thorough) trees of depth<=2 over 2 names and 2-3 contents are reached on the real memfs; from each, every operation of a ~2.4k-6k entry alphabet (16 methods x path spellings incl. '.', '', '//', inner/trailing '..', leading '/', escapes x contents/chunkings/buffer sizes x root/child/grandchild views) is executed and its result, the full tree walk and structural sanity are compared with the model; aliasing is decided by scribbling over every buffer handed in/out and by holding read results across every mutator.",
+         "All 361 (quick) / 841+ (thorough) trees of depth<=2 over 2 names and 2-3 contents are reached on the real memfs; from each, every operation of a ~2.4k-6k entry alphabet (16 methods x path spellings incl. '.', '', '//', inner/trailing '..', leading '/', escapes x contents/chunkings/buffer sizes x root/child/grandchild views) is executed and its result, the full tree walk and structural sanity are compared with the model; aliasing is decided by scribbling over every buffer handed in/out and by holding read results across every mutator; view chains created with a climbing Filespace() argument must fail.",
          "Trusts the 250-line tree model (models/treefs) and the result-class table (DESIGN 2.6); names {a,b}, depth<=2 states; listing order/sizes/times not modelled.",
          "DESIGN.md 3/C01"),
  "C02": ("model_checking",
          "explicit-state enumeration of canonical trees; lock-step differential execution of every (state, op) on a real disk filespace (materialised in a scratch dir with canaries outside the root) and a real memfs, both also compared with the tree reference model",
-         "From each of the 361/841 canonical trees every op of the alphabet is applied to both real backends (root and child views). Where the stated preconditions hold (model class MUST-OK) results, returned data/listings (as sets) and the resulting trees must be equal on disk, in memory and in the model; otherwise both must fail cleanly: no panic, nothing outside the addressed paths changes, the host directory outside the root (canary file/dir) is untouched. Histories of <=3 operations on retained root/child-view objects run in lock-step on both backends. 58 programs of 2-3 concurrent creations on ONE disk filespace are explored under every schedule with <=2/3 preemptions, every host file system call of the disk packages being a scheduling point: all operations must succeed and the final tree must be a sequential outcome of the model.",
-         "Disk states are materialised with plain os calls; no symlinks/permissions; removal of the real root and directory-into-itself copies are excluded (unbounded on disk); the concurrent programs contain creations only (the disk backend is not linearizable against removals, and the statement quantifies over histories).",
+         "From each of the 361/841 canonical trees every op of the alphabet is applied to both real backends (root and child views). Where the stated preconditions hold (model class MUST-OK) results, returned data/listings (as sets) and the resulting trees must be equal on disk, in memory and in the model; otherwise both must fail cleanly: no panic, nothing outside the addressed paths changes, the host directory outside the root (canary file/dir) is untouched. Histories of <=3 operations on retained root/child-view objects run in lock-step on both backends. 94 programs of 2-3 concurrent operations (creations, listings, reads, removal of a sibling entry) on ONE disk filespace are explored under every schedule with <=2/3 preemptions, every host file system call (package functions and methods of os / io/fs values) of the disk packages being a scheduling point: all operations must succeed and the final tree must be a sequential outcome of the model.",
+         "Disk states are materialised with plain os calls; no symlinks/permissions; removal of the real root and directory-into-itself copies are excluded (unbounded on disk); the concurrent programs only contain operations whose preconditions hold in every order (the disk backend is not linearizable against removals of addressed nodes, and the statement quantifies over histories).",
          "DESIGN.md 3/C02"),
  "C03": ("exploration",
          "bounded exhaustive enumeration of path strings x 16 operations x 24 view kinds x preludes on the real code with canaries outside every view root (no sampling)",
@@ -45,12 +45,12 @@ CHECKS = {
          "DESIGN.md 3/C07"),
  "C09": ("model_checking",
          "program enumeration x preemption-bounded exhaustive schedule exploration of the real memfs; each complete interleaving's call/return history and final tree checked for linearizability against the tree reference model (porcupine), plus race oracle",
-         "All unordered pairs of 12 single operations (incl. writer/reader streams held open across a scheduling point) from two initial trees, 8 three-thread, 4 two-operation and 3 open-handle programs are executed under every schedule within the preemption bound (pairs 3/8, triples 2/4). The history must have a sequential explanation that respects real time and yields the final tree; listings unique; no panic, no deadlock; no unordered conflicting access to memfs multi-word fields. Parent-directory creation may become visible earlier than the node itself, and a copy racing with a recursive remove of both ends is judged by the statement's clauses only (complete values, unique names).",
+         "All unordered pairs of 12 single operations (incl. writer/reader streams held open across a scheduling point) from two initial trees, 8 three-thread, 4 two-operation and 8 held-handle programs (a reader or writer held across another write, against writes, reads and copies of the held file) are executed under every schedule within the preemption bound (pairs 3/8, triples 2/4). The history must have a sequential explanation that respects real time and yields the final tree; listings unique; no panic, no deadlock; no unordered conflicting access to memfs multi-word fields. Parent-directory creation may become visible earlier than the node itself, and a copy racing with a recursive remove of both ends is judged by the statement's clauses only (complete values, unique names).",
          "Linearizability is used as the reading of 'takes effect and is visible afterwards'; 2-3 threads; bounds as reported.",
          "DESIGN.md 3/C09"),
  "C10": ("exploration",
          "exhaustive enumeration of bounded programs (ordered definition calls x request sequences) executed on the real provider and on a reference interpreter, compared request by request",
-         "Every ordered sequence of <=2-4 definition calls over 3 names (explicit and default slot per name; factory shapes const/fail/nil/requires X/tolerates X/injects X/injects ?X for every target incl. self, so every cyclic graph on <=3 names occurs) is followed by every sequence of <=1-3 requests (Get, InjectTo with required and optional tags, Keys, late definitions). Outcome class, instance identity, invocation counters and recursion depth must equal the reference (memoised resolver, explicit beats default, frozen after first resolution, cycle = error).",
+         "Every ordered sequence of <=2-4 definition calls over 3 names (explicit and default slot per name; factory shapes const/fail/nil/requires X/tolerates X/injects X/injects ?X for every target incl. self, so every cyclic graph on <=3 names occurs) is followed by every sequence of <=1-3 requests (Get, InjectTo with required and optional tags, Keys, late definitions). Outcome class, instance identity, invocation counters and recursion depth must equal the reference (memoised resolver, explicit beats default, frozen after first resolution, cycle = error). Programs of explicit definitions also run on two static providers sharing one caller-owned factories map (each against a frozen reference; the caller's map unchanged).",
          "Duplicate definitions of one slot are unspecified by the statement and not generated; error texts are not compared.",
          "DESIGN.md 3/C10"),
  "C11": ("model_checking",
@@ -60,17 +60,17 @@ CHECKS = {
          "DESIGN.md 3/C11"),
  "C12": ("model_checking",
          "program enumeration x stateless preemption-bounded DFS over all schedules of the real contextscope/scope code under the controlled scheduler, with a vector-clock happens-before race oracle on multi-word fields",
-         "All pairs of single operations {AppendError, Kill, Stop, IsDone, Errors}, curated two-operation threads and three-thread programs on plain, isolated, full and child scopes, plus child creation/closing after and racing with the parent's end; every schedule with <=3 (quick) / <=4 (thorough) preemptions for two threads and <=2/3 for three; readers that act on the done signal, errors recorded through the parent wrapper of a shared context with Err() calls in between; oracle: no panic, error count and identity, done signal, done-implies-error-visible (programs without Stop), the texts of Err()/Wait()/Close()/parent.Err() naming every appended error, no deadlock, no unordered conflicting access to the error slices. Child-closing programs: a registered child whose close-time listener fails is closed while another goroutine waits on / closes the parent, whose answers must name the listener's error.",
+         "All pairs of single operations {AppendError, Kill, Stop, IsDone, Errors}, curated two-operation threads and three-thread programs on plain, isolated, full and child scopes, plus child creation/closing after and racing with the parent's end; every schedule with <=3 (quick) / <=4 (thorough) preemptions for two threads and <=2/3 for three; readers that act on the done signal, errors recorded through the parent wrapper of a shared context with Err() calls in between; oracle: no panic, error count and identity, done signal, done-implies-error-visible (programs without Stop), the texts of Err()/Wait()/Close()/parent.Err() naming every appended error, no deadlock, no unordered conflicting access to the error slices. Child-closing programs: a registered child whose close-time listener fails is closed while another goroutine waits on / closes the parent, whose answers must name the listener's error. Orphan-child programs: a child of an ended scope signals while / after the parent is closed.",
          "Bounds as reported in evidence; word-sized fields are outside the race oracle; the shim's model of Mutex/RWMutex/WaitGroup/channels/select is trusted.",
          "DESIGN.md 3/C12"),
  "C13": ("model_checking",
          "bounded-history enumeration against a list-of-maps overlay model; preemption-bounded exhaustive schedule exploration of concurrent locked sections judged by a linearizability checker (porcupine) with each locked section as one atomic step; race oracle",
-         "All histories of <=3/4 operations on scope chains of depth 1-3 (keys k1,k2; values 1,2,nil) are compared with the overlay model through plain and locked reads; 33 concurrent programs (locked increments, plain writes/reads, Keys, nested locked reads, the get-or-create services of the task manager, environment and wait-group units) are explored under every schedule with <=3/2 (quick) or <=5/3 (thorough) preemptions; the recorded call/return history must be linearizable and end in the final value, services must return one instance.",
+         "All histories of <=3/4 operations on scope chains of depth 1-3 (keys k1,k2; values 1,2,nil) are compared with the overlay model through plain, locked and nested-locked reads (a section opened on a section's locker); 33 concurrent programs (locked increments, plain writes/reads, Keys, nested locked reads, the get-or-create services of the task manager, environment and wait-group units) are explored under every schedule with <=3/2 (quick) or <=5/3 (thorough) preemptions; the recorded call/return history must be linearizable and end in the final value, services must return one instance.",
          "2-3 threads; bounds as reported; the content of Keys() is not judged.",
          "DESIGN.md 3/C13"),
  "C14": ("model_checking",
          "task-graph enumeration x preemption-bounded exhaustive schedule exploration with a happens-before state cache of the real runner/task manager/terminal loop inside a mock application bootstrapped per execution",
-         "Task graphs on 2-3 tasks (all wait shapes), failing-command variants, body durations, a submission waiting for an unknown task / for itself / for a later task, nested pip:run from inside a body, write/read resource locks (also combined with wait lists) and tasks in a sandbox that reports its outcome only by return value are submitted through the real Runner into the real self sandbox; probe commands log begin/end with global steps. Every schedule within the bound is executed (dependent pairs: 1 preemption quick / 2 thorough; other two-task graphs and chains 0/1; three-task graphs with concurrent tasks: thorough only, free switches) and the oracle checks wait order, never-after-failed-prerequisite, sequential bodies stopping at a failing command, refused submissions, TasksManager.Wait's result, lock exclusion, no panic, no deadlock; after all tasks have finished every named resource must be free again (release check through the application's SharedMutex).",
+         "Task graphs on 2-3 tasks (all wait shapes), failing-command variants, body durations, a submission waiting for an unknown task / for itself / for a later task, wait lists that are prefixes of one caller-owned array, nested pip:run from inside a body, write/read resource locks (also combined with wait lists) and tasks in a sandbox that reports its outcome only by return value are submitted through the real Runner into the real self sandbox; probe commands log begin/end with global steps. Every schedule within the bound is executed (dependent pairs: 1 preemption quick / 2 thorough; other two-task graphs and chains 0/1; three-task graphs with concurrent tasks: thorough only, free switches) and the oracle checks wait order, never-after-failed-prerequisite, sequential bodies stopping at a failing command, refused submissions, TasksManager.Wait's result, lock exclusion, no panic, no deadlock; after all tasks have finished every named resource must be free again (release check through the application's SharedMutex).",
          "Ready select cases are all explored at no cost; accesses to objects outside the focus packages do not order executions in the happens-before cache (declared reduction); siblings sharing a failed context may be cut short.",
          "DESIGN.md 3/C14"),
  "C15": ("model_checking",
@@ -85,22 +85,22 @@ CHECKS = {
          "DESIGN.md 3/C16"),
  "C17": ("exploration",
          "exhaustive enumeration of ALL byte strings up to length 7 (quick) / 9 (thorough) over the 9-symbol alphabet of significant bytes and up to length 4/5 over a 12-symbol alphabet of blank-like bytes, and of all rendered argument lists (<=3 arguments, 14-entry pool, 3 quoting forms, 4 separators)",
-         "Totality, agreement of SplitArguments with ReadArguments and conservation of bytes >= 0x80 are checked on every string; strings without quote/backslash/heredoc against a plain-word reference (per-line fields byte-for-byte, eof flags, exact stop at the newline); strings whose backslashes precede a letter or a continuation newline against the argument-count reference; every rendered list must split back to the original list and leave the next command for the next call; InjectArgs mapping is checked on every list. 8 command-loop programs (termexec.RunLoop with and without prompt; a command that consumes the line after its own) are explored under every schedule: the next reader finds exactly the bytes after the command's newline.",
+         "Totality, agreement of SplitArguments with ReadArguments and conservation of bytes >= 0x80 are checked on every string; strings without quote/backslash/heredoc against a plain-word reference (per-line fields byte-for-byte, eof flags, exact stop at the newline); strings whose backslashes precede a letter or a continuation newline against the argument-count reference; every rendered list must split back to the original list and leave the next command for the next call; InjectArgs mapping is checked on every list and on lists of 0..40/150 positional arguments. 8 command-loop programs (termexec.RunLoop with and without prompt; a command that consumes the line after its own) are explored under every schedule: the next reader finds exactly the bytes after the command's newline.",
          "Length bound as stated (no random part claimed); content of words containing a bare backslash is unspecified by the statement and only counted.",
          "DESIGN.md 3/C17"),
  "C18": ("exploration",
          "exhaustive enumeration of environment values over 12 shell-significant symbols (<=3/4 symbols), 20 word-level symbols (<=2/3) and every byte value in six positions, and of names (<=4 symbols, every byte value); generated scripts executed by the real /bin/sh with a canary command on PATH",
-         "For both start-up script builders (container builder; SSH builder through the verif export hook) every value is configured alone and next to a second variable, the generated script plus NUL-terminated printf lines is fed to /bin/sh on stdin in an empty directory; the shell must print every variable verbatim (up to trailing newlines), exit 0 and leave the directory empty although `a` is a real command that drops a canary file. Every name over 10 symbols accepted by Set/SetAll must be a plain identifier. Heredoc terminators seen in earlier scripts are fed back as value lines under both environment answers for pooled state (modelled sync.Pool keeps everything / nothing); stores filled from shared maps; pairs of scripts built before the first is read.",
+         "For both start-up script builders (container builder; SSH builder through the verif export hook) every value is configured alone and next to a second variable, the generated script plus NUL-terminated printf lines is fed to /bin/sh on stdin in an empty directory; the shell must print every variable verbatim (up to trailing newlines), exit 0 and leave the directory empty although `a` is a real command that drops a canary file. Every name over 10 symbols accepted by Set/SetAll must be a plain identifier. Heredoc terminators seen in earlier scripts are fed back as value lines under both environment answers for pooled state (modelled sync.Pool keeps everything / nothing); stores filled from shared maps; pairs of scripts built before the first is read; the shell already holds a variable named like the first configured one and set-ness is observed.",
          "dash as /bin/sh of this image; no SSH/container engine involved; symbol bound as stated.",
          "DESIGN.md 3/C18"),
  "C19": ("model_checking",
          "exhaustive enumeration of request sequences x configurations against a reference renderer (html/template, text/template); preemption-bounded schedule exploration (happens-before cache) of concurrent first requests with a vector-clock race oracle on the providers' cache maps",
-         "All 819 sequences of <=3 requests (Base, Layout, View incl. default-layout and missing-view spellings) for both providers, helpers present/absent, cached and uncached: every returned template is rendered and compared (output and defined-name set) with a reference built directly on the standard library, cached and uncached outputs must agree position by position. 36 concurrent programs (2-3 threads, first requests for the same/different views, view+layout, base+view) under every schedule within the bound: all callers render like the reference, no error, no unordered conflicting access to the cache maps (how 'no call crashes the process' is decided deterministically). 8 single-threaded programs over files with overlapping definitions inside one layer ask the same request twice of an uncached and of a cached provider with the iteration order of every ranged Go map as an explored choice: all answers equal.",
+         "All 819 sequences of <=3 requests (Base, Layout, View incl. default-layout and missing-view spellings) for both providers, helpers present/absent, cached and uncached: every returned template is rendered and compared (output and defined-name set) with a reference built directly on the standard library, cached and uncached outputs must agree position by position; nested layout/view names whose joined spellings coincide (a + b/c, a/b + c) in all sequences of <=2 requests. 36 concurrent programs (2-3 threads, first requests for the same/different views, view+layout, base+view) under every schedule within the bound: all callers render like the reference, no error, no unordered conflicting access to the cache maps (how 'no call crashes the process' is decided deterministically). 8 single-threaded programs over files with overlapping definitions inside one layer ask the same request twice of an uncached and of a cached provider with the iteration order of every ranged Go map as an explored choice: all answers equal.",
          "One file set with overlapping definitions across layers, one with overlapping definitions inside the view, layout and helper layers; word-sized cache fields are outside the race oracle; bounds as reported.",
          "DESIGN.md 3/C19"),
  "C20": ("exploration",
          "exhaustive bounded enumeration of nested maps, JSON documents (every leaf string up to 2/3 symbols in every spelling) and flat maps against encoding/json; bounded-preemption schedule exploration of the concurrent loader",
-         "Flatten/rebuild inverse laws on all nested maps (3 keys, and the empty string + 1 key, depth<=3, <=3/4 leaves; deep spines to depth 12/20); JSON reading compared with encoding/json on 4 document shapes x every leaf string over 9 JSON-significant symbols incl. escaped spellings and surrogate pairs, numbers and skipped leaf kinds; JSON writing (compact and formatted) must be valid for encoding/json, denote the same map and round-trip, for every value string over 14 symbols (incl. U+1F600, U+10000, U+FFFF) and every prefix-free key set of <=3/4 keys over segments that are prefixes of one another; the translation loader is explored under every schedule with <=1-3 preemptions on 8 directory layouts.",
+         "Flatten/rebuild inverse laws on all nested maps (3 keys, and the empty string + 1 key, depth<=3, <=3/4 leaves; deep spines to depth 12/20); JSON reading compared with encoding/json on 4 document shapes x every leaf string over 9 JSON-significant symbols incl. escaped spellings and surrogate pairs, every number literal of <=5/6 characters over {0,1,-,+,.,e,E}, and skipped leaf kinds; JSON writing (compact and formatted) must be valid for encoding/json, denote the same map and round-trip, for every value string over 14 symbols (incl. U+1F600, U+10000, U+FFFF) and every prefix-free key set of <=3/4 keys over segments that are prefixes of one another; the translation loader is explored under every schedule with <=1-3 preemptions on 8 directory layouts.",
          "encoding/json is the reference; symbol-length bounds as stated; loader values are %-free; the flat key '' alone is refused by the rebuild functions by design (explicit error, accepted).",
          "DESIGN.md 3/C20"),
  "C08": ("model_checking",
